@@ -136,6 +136,46 @@ func main() {
 			}
 		}
 	}
+	// (a') one key buffer and one iv buffer reused for different keys (a caller that derives each key into the
+	// same scratch space): every ordered pair of keys x ivs, second operation judged by the definition
+	{
+		kb, ivb := make([]byte, 32), make([]byte, 32)
+		plain := patterns(3)["incr"]
+		for k1 := range keys {
+			for k2 := range keys {
+				for i1 := range ivs {
+					for i2 := range ivs {
+						id := fmt.Sprintf("core shared-buffers k%d,iv%d then k%d,iv%d", k1, i1, k2, i2)
+						rep := map[string]any{"part": "core-shared-buffers", "k1": k1, "k2": k2, "iv1": i1, "iv2": i2}
+						out := make([]byte, len(plain))
+						okc := c.try("core|shared-key-buffer", id, rep, func() {
+							copy(kb, keys[k1])
+							copy(ivb, ivs[i1])
+							_ = ige.VerifIGEEncrypt(append([]byte{}, plain...), out, kb, ivb)
+							copy(kb, keys[k2])
+							copy(ivb, ivs[i2])
+							_ = ige.VerifIGEEncrypt(append([]byte{}, plain...), out, kb, ivb)
+						})
+						run.Eval(id, okc)
+						if okc && !bytes.Equal(out, mtp1.IGEEncrypt(keys[k2], ivs[i2], plain)) {
+							run.Violation("core|shared-key-buffer|second-operation-differs-from-definition", id+": after the key/iv buffers were refilled, the ciphertext is not the one the definition gives for the new key and iv", rep)
+						}
+						okc = c.try("core|shared-key-buffer", id, rep, func() {
+							copy(kb, keys[k1])
+							copy(ivb, ivs[i1])
+							_ = ige.VerifIGEDecrypt(append([]byte{}, plain...), out, kb, ivb)
+							copy(kb, keys[k2])
+							copy(ivb, ivs[i2])
+							_ = ige.VerifIGEDecrypt(append([]byte{}, plain...), out, kb, ivb)
+						})
+						if okc && !bytes.Equal(out, mtp1.IGEDecrypt(keys[k2], ivs[i2], plain)) {
+							run.Violation("core|shared-key-buffer|second-decryption-differs-from-definition", id+": after the key/iv buffers were refilled, the plaintext is not the one the definition gives for the new key and iv", rep)
+						}
+					}
+				}
+			}
+		}
+	}
 	// (b) refusal
 	for n := 0; n <= 64; n++ {
 		if n > 0 && n%16 == 0 {
